@@ -6,7 +6,7 @@ PRE = r'''
 #[derive(PartialEq, Eq, Clone, Copy)] pub struct BlockId(pub u32);
 #[derive(PartialEq, Eq, Clone, Copy)] pub struct ScopeId(pub u32);
 #[derive(PartialEq, Eq, Clone, Copy)] pub struct StmtId(pub u32);
-#[derive(Clone, Copy)] pub enum UnreachableCause { Return, Break, Continue }
+
 '''
 
 MODEL = r'''
@@ -38,7 +38,10 @@ pub struct G {
     pub body_ctx: Ghost<Option<LoopContext>>,
     pub body_tail: Ghost<Option<BlockId>>,
     pub pre: Ghost<Option<BlockId>>,
+    pub calls: Ghost<Seq<Lowered>>,             // every lower_block call so far, in order
 }
+// one lower_block call: where it started, under which loop context, and the open block it ended in (None: no fall-through)
+pub struct Lowered { pub start: Option<BlockId>, pub ctx: Option<LoopContext>, pub tail: Option<BlockId> }
 pub open spec fn cond_of(g: &G) -> BlockId { g.term@[g.pre@->Some_0]->Goto_target }
 pub open spec fn entry_of(g: &G) -> BlockId { g.term@[cond_of(g)]->Branch_then_target }
 pub struct Program { pub g: Ghost<int> }
@@ -56,23 +59,23 @@ impl G {
     pub fn new_block(&mut self, cause: Option<UnreachableCause>) -> (r: BlockId)
         ensures old(self).fresh(r), final(self).next@ == r.0 as nat + 1, final(self).next@ > old(self).next@,
                 final(self).term@ == old(self).term@, final(self).body_start@ == old(self).body_start@, final(self).body_ctx@ == old(self).body_ctx@,
-                final(self).body_tail@ == old(self).body_tail@, final(self).pre@ == old(self).pre@,
+                final(self).body_tail@ == old(self).body_tail@, final(self).pre@ == old(self).pre@, final(self).calls@ == old(self).calls@,
     { unimplemented!() }
     #[verifier::external_body]
     pub fn ensure_block(&mut self, cursor: &mut Cursor) -> (r: BlockId)
         ensures final(cursor).block == Some(r), !old(self).fresh(r) || final(self).next@ > r.0 as nat, final(self).next@ >= old(self).next@, !final(self).fresh(r),
                 final(self).term@ == old(self).term@, final(self).pre@ == Some(r),
-                final(self).body_start@ == old(self).body_start@, final(self).body_ctx@ == old(self).body_ctx@, final(self).body_tail@ == old(self).body_tail@,
+                final(self).body_start@ == old(self).body_start@, final(self).body_ctx@ == old(self).body_ctx@, final(self).body_tail@ == old(self).body_tail@, final(self).calls@ == old(self).calls@,
     { unimplemented!() }
     #[verifier::external_body]
     pub fn set_terminator(&mut self, b: BlockId, t: Terminator)
         ensures final(self).term@ == old(self).term@.insert(b, t), final(self).next@ == old(self).next@, final(self).pre@ == old(self).pre@,
-                final(self).body_start@ == old(self).body_start@, final(self).body_ctx@ == old(self).body_ctx@, final(self).body_tail@ == old(self).body_tail@,
+                final(self).body_start@ == old(self).body_start@, final(self).body_ctx@ == old(self).body_ctx@, final(self).body_tail@ == old(self).body_tail@, final(self).calls@ == old(self).calls@,
     { unimplemented!() }
     #[verifier::external_body]
     pub fn push_stmt(&mut self, program: &mut Program, b: BlockId, parent: Option<StmtId>) -> (r: StmtId)
         ensures final(self).term@ == old(self).term@, final(self).next@ == old(self).next@, final(self).pre@ == old(self).pre@,
-                final(self).body_start@ == old(self).body_start@, final(self).body_ctx@ == old(self).body_ctx@, final(self).body_tail@ == old(self).body_tail@,
+                final(self).body_start@ == old(self).body_start@, final(self).body_ctx@ == old(self).body_ctx@, final(self).body_tail@ == old(self).body_tail@, final(self).calls@ == old(self).calls@,
     { unimplemented!() }
     #[verifier::external_body]
     pub fn branch_terminator(&self, stmt: StmtId, then_target: BlockId, else_target: BlockId) -> (r: Terminator)
@@ -81,6 +84,7 @@ impl G {
     #[verifier::external_body]
     pub fn lower_block(&mut self, body: &Body, cursor: Cursor, loop_ctx: Option<LoopContext>, parent: Option<StmtId>, scopes: &mut Scopes, program: &mut Program) -> (r: Cursor)
         ensures final(self).body_start@ == cursor.block, final(self).body_ctx@ == loop_ctx, final(self).body_tail@ == r.block,
+                final(self).calls@ == old(self).calls@.push(Lowered { start: cursor.block, ctx: loop_ctx, tail: r.block }),
                 final(self).next@ >= old(self).next@, final(self).pre@ == old(self).pre@,
                 r.block is Some ==> !final(self).fresh(r.block->Some_0),
                 // a cursor's block is open: it has no terminator yet
@@ -92,12 +96,12 @@ impl G {
     #[verifier::external_body]
     pub fn kill_scopes_through(&mut self, b: BlockId, scopes: &Scopes, boundary: ScopeId)
         ensures final(self).term@ == old(self).term@, final(self).next@ == old(self).next@, final(self).pre@ == old(self).pre@,
-                final(self).body_start@ == old(self).body_start@, final(self).body_ctx@ == old(self).body_ctx@, final(self).body_tail@ == old(self).body_tail@,
+                final(self).body_start@ == old(self).body_start@, final(self).body_ctx@ == old(self).body_ctx@, final(self).body_tail@ == old(self).body_tail@, final(self).calls@ == old(self).calls@,
     { unimplemented!() }
     #[verifier::external_body]
     pub fn add_scope_kills(&mut self, b: BlockId, s: ScopeId)
         ensures final(self).term@ == old(self).term@, final(self).next@ == old(self).next@, final(self).pre@ == old(self).pre@,
-                final(self).body_start@ == old(self).body_start@, final(self).body_ctx@ == old(self).body_ctx@, final(self).body_tail@ == old(self).body_tail@,
+                final(self).body_start@ == old(self).body_start@, final(self).body_ctx@ == old(self).body_ctx@, final(self).body_tail@ == old(self).body_tail@, final(self).calls@ == old(self).calls@,
     { unimplemented!() }
 }
 '''
@@ -110,6 +114,7 @@ UNIT = VUnit(
     trusted=["the builder methods are shims over a ghost record of the graph, each stating what the real method does (new_block is fresh, set_terminator overwrites one block, branch_terminator is a struct literal of its two targets, lower_block lowers the body under the LoopContext it is given)",
              "struct definitions Cursor and LoopContext are copied from the source on every run"],
     items=[
+        Enum("UnreachableCause", derive="#[derive(Clone, Copy)]"),
         Struct("Cursor"),
         Struct("LoopContext", derive="#[derive(PartialEq, Eq, Clone, Copy)]"),
         Raw(MODEL),
@@ -160,5 +165,30 @@ UNIT = VUnit(
                         Rw("R6", r"span: \*span,", "", min_matches=1),
                         Rw("R9", r"self\.(ensure_block|set_terminator|kill_scopes_through)\(", r"g.\1(", min_matches=3)],
               real_name="FunctionBuilder::lower_stmt (Stmt::Continue arm)"),
+        # if: the condition block branches to a fresh then-entry and a fresh else-entry; each present branch is lowered from its entry under
+        # the SAME loop context as the if itself (comot/next inside an if still leave/continue the enclosing loop); the open tails (or the bare
+        # else-entry) meet in a fresh join block, and there is no fall-through exactly when neither side has one
+        Block("lower_if", within="lower_stmt", impl="impl FunctionBuilder", arm=True,
+              anchor=r"Stmt::If \{ then_b, else_b, span, \.\. \} =>",
+              sig="fn lower_if(g: &mut G, then_b: &Body, else_b: &Option<&Body>, loop_ctx: Option<LoopContext>, cursor0: Cursor, parent_stmt: Option<StmtId>, scope_stack: &mut Scopes, program: &mut Program) -> (res: Cursor)",
+              prologue="    let mut cursor = cursor0;",
+              requires=["old(g).calls@.len() == 0"],
+              ensures=["final(g).pre@ is Some && final(g).term@.dom().contains(final(g).pre@->Some_0) && final(g).term@[final(g).pre@->Some_0] is Branch",
+                       "final(g).calls@.len() == (if *else_b is Some { 2int } else { 1int })",
+                       "final(g).calls@[0].start == Some(final(g).term@[final(g).pre@->Some_0]->Branch_then_target) && final(g).calls@[0].ctx == loop_ctx",
+                       "*else_b is Some ==> final(g).calls@[1].start == Some(final(g).term@[final(g).pre@->Some_0]->Branch_else_target) && final(g).calls@[1].ctx == loop_ctx",
+                       "old(g).fresh(final(g).term@[final(g).pre@->Some_0]->Branch_then_target) && old(g).fresh(final(g).term@[final(g).pre@->Some_0]->Branch_else_target) && final(g).term@[final(g).pre@->Some_0]->Branch_then_target != final(g).term@[final(g).pre@->Some_0]->Branch_else_target",
+                       # join
+                       "({ let then_tail = final(g).calls@[0].tail; let else_tail = if *else_b is Some { final(g).calls@[1].tail } else { Some(final(g).term@[final(g).pre@->Some_0]->Branch_else_target) };"
+                       "   (res.block is None <==> (then_tail is None && else_tail is None))"
+                       "   && (res.block is Some ==> old(g).fresh(res.block->Some_0)"
+                       "        && (then_tail is Some ==> final(g).term@.dom().contains(then_tail->Some_0) && final(g).term@[then_tail->Some_0] == (Terminator::Goto { target: res.block->Some_0 }))"
+                       "        && (else_tail is Some ==> final(g).term@.dom().contains(else_tail->Some_0) && final(g).term@[else_tail->Some_0] == (Terminator::Goto { target: res.block->Some_0 }))) })"],
+              rewrites=[Rw("R9", r"self\s*\.facts\s*\.scope_of_block\((\w+)\)\s*\.expect\(\"[^\"]*\"\)", r"g.scope_of_loop_body(\1)", min_matches=2),
+                        Rw("R9", r"self\.push_stmt\(program, block, stmt, \*span, parent_stmt\)", "g.push_stmt(program, block, parent_stmt)", min_matches=1),
+                        Rw("R9", r"self\.branch_terminator\(stmt_id, \*span, ", "g.branch_terminator(stmt_id, ", min_matches=1),
+                        Rw("R9", r"self\.(ensure_block|new_block|set_terminator|lower_block|add_scope_kills)\(", r"g.\1(", min_matches=10),
+                        ],
+              real_name="FunctionBuilder::lower_stmt (Stmt::If arm: shape of the lowered conditional)"),
     ],
 )
